@@ -18,7 +18,8 @@ Bytes are `List UInt8`; 13 = CR, 10 = LF, 46 = '.', 58 = ':'.
 
 What is NOT modelled (recorded as assumptions of the check): the interpretation of lines in
 COMMAND mode (the model only records that a line was handed to `state_COMMAND`; the tie
-compares events up to the first such line), `datafailed` (an `IMessage.lineReceived` that
+compares events up to the first such line; between two messages of a session only the accepted
+`DATA` command is modelled, as `doData`), `datafailed` (an `IMessage.lineReceived` that
 raises `SMTPServerError`), several recipients (every message object is handed the same
 calls), timeouts.
 -/
@@ -201,5 +202,18 @@ def feed (maxLen : Nat) : Srv → List Bytes → Srv × List Ev
 
 /-- the server when `354` has been sent: `mode = DATA`, `__inheader = __inbody = 0`, empty buffer -/
 def initData : Srv := {}
+
+/-- `SMTP.do_DATA` when the message is accepted (`354 Continue`), on a server in whatever state the earlier
+    commands and messages of the session left it: `self.mode = DATA`, `self.__inheader = self.__inbody = 0`
+    (`datafailed = None` as well — `datafailed` is not modelled); the receive buffer is not touched. -/
+def doData (s : Srv) : Srv := { s with mode := .data, inheader := false, inbody := false }
+
+/-- the server at the `354` of the next message, after earlier messages of the same session: each earlier
+    message is the client's stream for it (`sendFile`, read in one chunk — `[]` for an empty file) delivered in
+    one piece to a server that accepted its `DATA` command.  `prevMax` is the line limit in force then. -/
+def afterSession (prevMax : Nat) : Srv → List Bytes → Srv
+  | s, [] => doData s
+  | s, b :: bs =>
+    afterSession prevMax (feed prevMax (doData s) [sendFile (if b = [] then [] else [b])]).1 bs
 
 end Twisted.Mail.SmtpData
